@@ -14,7 +14,13 @@ impl CommandResult {
 impl Command {
     #[verifier::external_body]
     pub fn has_here_string(&self) -> (r: bool) { unimplemented!() }
+    #[verifier::external_body]
+    pub fn has_redirect_from(&self) -> (r: bool) { unimplemented!() }
 }
+pub struct VxIoErr2 { pub e: i32 }
+// opening the file and reading its first line: I/O, opaque
+#[verifier::external_body]
+pub fn read_first_line(path: &str) -> (r: Result<String, VxIoErr2>) { unimplemented!() }
 pub open spec fn strs(v: Seq<String>) -> Seq<Seq<char>> { v.map_values(|s: String| s@) }
 
 // ghost log: the fields the line was split into, and every variable assignment made
@@ -85,6 +91,7 @@ RW = [
        why='iterator adapter chain (the texts of tokens[1..]) through a shim with that contract'),
     Rw('io::stdin().read_line(&mut buffer)', 'vx_stdin_read_line(&mut buffer)', rule='R3', why='reading a line from stdin: I/O, opaque'),
     Rw('buffer.push_str(&redirect_from.1);', 'vx_push_str(&mut buffer, &redirect_from.1);', rule='R12'),
+    Rw('buffer.push_str(&line)', 'vx_push_str(&mut buffer, &line)', required=False, rule='R12'),
     Rw('cl.envs.clone()', 'vx_clone_envs(&cl.envs)', rule='R7'),
     Rw('tools::split_into_fields(', 'split_into_fields(', rule='R0'),
     Rw('value_list.get(i).unwrap_or(&String::new()).clone()', 'vx_get_or_empty(&value_list, i)', required=False, rule='R12',
